@@ -188,6 +188,30 @@ class Ctx:
     def shard_seed(self, salt=0):
         return (self.seed * 1000003 + self.shard * 7919 + salt) % (2 ** 63)
 
+    def in_fresh_interpreter(self, case):
+        """Re-execute a failing case in a NEW interpreter (run.py --replay).  Used when a failure found during the
+        search does not reproduce in this process: state that is global to the interpreter (class-level caches in the
+        code under test) may have been changed by earlier cases, so only a fresh process gives a definite answer.
+        Returns the list of problems reported there ([] when the property holds on the case in a fresh process)."""
+        import subprocess
+        import tempfile
+        with tempfile.TemporaryDirectory(prefix='kv_fresh_') as td:
+            path = os.path.join(td, 'case.json')
+            with open(path, 'w', encoding='utf-8') as f:
+                json.dump({'property': self.pid, 'case': case}, f)
+            r = subprocess.run([sys.executable, os.path.join(VERIF, 'run.py'), self.pid, '--replay', path], capture_output=True,
+                               text=True, env=dict(os.environ, PYTHONHASHSEED='0'), timeout=900)
+        if r.returncode == 2:
+            raise HarnessError('replay in a fresh interpreter failed:\n' + r.stderr[-2000:])
+        probs = []
+        for line in r.stdout.split('\n'):
+            if line.startswith('  problem '):
+                sig, _, detail = line[len('  problem '):].partition(': ')
+                probs.append(Problem(sig, detail + ' [reproduced in a fresh interpreter only: depends on interpreter-global state]', {}))
+        if r.returncode == 1 and not probs:
+            probs.append(Problem('fresh-interpreter', r.stdout[-600:], {}))
+        return probs if r.returncode == 1 else []
+
     # ---- the one entry every case goes through -------------------------------------------------
     def evaluate(self, case, check, count=True):
         """Run the oracle on one case.  Returns the list of problems that are NOT covered by an open known finding
@@ -301,11 +325,17 @@ class Ctx:
             except HarnessError as he:
                 self.rec.harness_errors.append(str(he))
                 return
+            if not un:
+                try:
+                    un = self.in_fresh_interpreter(case)
+                except HarnessError as he:
+                    self.rec.harness_errors.append(str(he))
+                    return
             if un:
                 self.violation(case, un)
             else:
-                self.rec.harness_errors.append(f'{label}: failing case did not reproduce outside Hypothesis: '
-                                               + jdump(case)[:1500])
+                self.rec.harness_errors.append(f'{label}: failing case did not reproduce outside Hypothesis (neither in this '
+                                               f'process nor in a fresh interpreter): ' + jdump(case)[:1500])
 
 
     # ---- Hypothesis stateful driver --------------------------------------------------------------
@@ -365,10 +395,17 @@ class Ctx:
             except HarnessError as he:
                 self.rec.harness_errors.append(str(he))
                 return
+            if not un:
+                try:
+                    un = self.in_fresh_interpreter(case)
+                except HarnessError as he:
+                    self.rec.harness_errors.append(str(he))
+                    return
             if un:
                 self.violation(case, un)
             else:
-                self.rec.harness_errors.append(f'{label}: failing history did not reproduce outside Hypothesis: ' + jdump(case)[:1500])
+                self.rec.harness_errors.append(f'{label}: failing history did not reproduce outside Hypothesis (neither in this '
+                                               f'process nor in a fresh interpreter): ' + jdump(case)[:1500])
 
 
 # ------------------------------------------------------------------------------------------------
